@@ -971,6 +971,22 @@ impl StoreEnv {
                 let cut = bytes.len() * pm / 1000;
                 fs::write(&p, &bytes[..cut.min(bytes.len())]).is_ok()
             }
+            "chop_newline" => {
+                // the last line is complete but its newline never reached the disk
+                let Ok(bytes) = fs::read(&p) else { return false };
+                if bytes.last() != Some(&b'\n') {
+                    return false;
+                }
+                fs::write(&p, &bytes[..bytes.len() - 1]).is_ok()
+            }
+            "tear_last_line" => {
+                // the last line is cut in the middle (its body only partly written)
+                let Ok(bytes) = fs::read(&p) else { return false };
+                let body = &bytes[..bytes.len().saturating_sub(1)];
+                let start = body.iter().rposition(|b| *b == b'\n').map(|i| i + 1).unwrap_or(0);
+                let cut = start + (bytes.len() - start) / 2;
+                fs::write(&p, &bytes[..cut]).is_ok()
+            }
             "chop_last_line" => {
                 let Ok(bytes) = fs::read(&p) else { return false };
                 let body = &bytes[..bytes.len().saturating_sub(1)];
